@@ -80,11 +80,11 @@ PLAN["C10"] = {
     "assumptions": ["PIT tokens are at most 32 bytes (NDNLPv2)", "the receiver is a non-local face (local faces fan Data out to several threads by design)"],
 }
 PLAN["C04"] = {
-    "parts": [{"engine": "rxsim", "quick": 6000, "thorough": 600000}, {"engine": "dvsim", "quick": 1200, "thorough": 60000, "quick_wall": 45}, {"engine": "objsim", "quick": 1500, "thorough": 80000, "quick_wall": 45}, {"engine": "svsim", "quick": 3000, "thorough": 150000, "quick_wall": 45}],
-    "nontrivial": "rxsim: >=1 corrupted frame was put on the link and >=1 frame of the run decoded past its outer type-length; dvsim: >=1 corrupted routing packet (sync Interest, advertisement Interest/Data, prefix Interest/Data) reached a router; objsim: >=1 corrupted metadata/segment Interest or Data reached the producer or the consumer; svsim: >=1 corrupted Sync Interest reached a node",
+    "parts": [{"engine": "rxsim", "quick": 6000, "thorough": 600000}, {"engine": "dvsim", "quick": 1200, "thorough": 60000, "quick_wall": 45}, {"engine": "objsim", "quick": 1500, "thorough": 80000, "quick_wall": 45}, {"engine": "svsim", "quick": 3000, "thorough": 150000, "quick_wall": 45}, {"engine": "mgmtsim", "quick": 4000, "thorough": 200000, "quick_wall": 45}],
+    "nontrivial": "rxsim: >=1 corrupted frame was put on the link and >=1 frame of the run decoded past its outer type-length; dvsim: >=1 corrupted routing packet (sync Interest, advertisement Interest/Data, prefix Interest/Data) reached a router; objsim: >=1 corrupted metadata/segment Interest or Data reached the producer or the consumer; svsim: >=1 corrupted Sync Interest reached a node; mgmtsim: >=1 command with corrupted ControlParameters reached the management thread",
     "fault_note": "link corruption fault over valid traffic (bare and LP-wrapped Interests/Data, Nacks, idle frames, real fragments): every TLV length replaced by boundary/huge values (with and without patching the enclosing lengths), truncation, bit flips, type confusion, inserted bytes, fragment index/count/sequence rewrites, PIT tokens naming thread count-1/count/65535, random frames; optionally delivered through the stream framing loop under arbitrary chunking",
-    "components": {"real": ["fw/face readTlvStream", "fw/face NDNLPLinkService.handleIncomingFrame + reassembly + dispatchInterest/dispatchData", "fw/dispatch GetFWThread", "fw/fw Thread.Run (1..32 threads) with PIT/CS/FIB behind it", "std/engine/basic Engine.onPacket (same frames, contiguous and 2-/3-segment readers)", "std/ndn/spec_2022 decoders (Interest, Data, LpPacket)", "std/encoding readers", "dvsim part: dv/dv Router receive handlers, dv/tlv decoders (Advertisement, PrefixOpList, sync state vector), std/engine/basic Engine per router - routing traffic corrupted in transit", "objsim part: std/object consumer and producer clients, segment fetcher, std/ndn/rdr_2024 metadata decoder - object traffic corrupted in transit", "svsim part: std/sync SvSync (2-4 instances: main loop, suppression, periodic timer on the bubble clock), std/ndn/svs_2024 state-vector decoder, std/engine/basic Engine per node - Sync Interests corrupted in transit"], "stub": ["transport (SimTransport)", "upstream face (sink)", "dvsim part: the forwarders between daemons (hub), SvSync dissemination", "objsim part: faces, network", "svsim part: faces, multicast link"]},
-    "assumptions": ["decided for the forwarder's and the application engine's receive paths and the decoders they reach; dv/tlv decoders are reached by this check's dvsim part (routing packets corrupted in transit, including the TLVs nested in Data content), mgmt_2022 ControlParameters by mgmtsim's corrupted-parameter fault (C17), rdr_2024 and the object clients by this check's objsim part; svs_2024 by this check's svsim part; ndncert_0_3, schema/demosec and the generator's test models are not reached by any simulated component and are NOT decided (see DESIGN.md 6.C04)",
+    "components": {"real": ["fw/face readTlvStream", "fw/face NDNLPLinkService.handleIncomingFrame + reassembly + dispatchInterest/dispatchData", "fw/dispatch GetFWThread", "fw/fw Thread.Run (1..32 threads) with PIT/CS/FIB behind it", "std/engine/basic Engine.onPacket (same frames, contiguous and 2-/3-segment readers)", "std/ndn/spec_2022 decoders (Interest, Data, LpPacket)", "std/encoding readers", "dvsim part: dv/dv Router receive handlers, dv/tlv decoders (Advertisement, PrefixOpList, sync state vector), std/engine/basic Engine per router - routing traffic corrupted in transit", "objsim part: std/object consumer and producer clients, segment fetcher, std/ndn/rdr_2024 metadata decoder - object traffic corrupted in transit", "svsim part: std/sync SvSync (2-4 instances: main loop, suppression, periodic timer on the bubble clock), std/ndn/svs_2024 state-vector decoder, std/engine/basic Engine per node - Sync Interests corrupted in transit", "mgmtsim part: the whole forwarder (management thread and modules, mgmt_2022 ControlParameters decoder, internal face, forwarding threads) - command parameters corrupted in transit"], "stub": ["transport (SimTransport)", "upstream face (sink)", "dvsim part: the forwarders between daemons (hub), SvSync dissemination", "objsim part: faces, network", "svsim part: faces, multicast link", "mgmtsim part: transports of application faces"]},
+    "assumptions": ["decided for the forwarder's and the application engine's receive paths and the decoders they reach; dv/tlv decoders are reached by this check's dvsim part (routing packets corrupted in transit, including the TLVs nested in Data content), mgmt_2022 ControlParameters by this check's mgmtsim part, rdr_2024 and the object clients by this check's objsim part; svs_2024 by this check's svsim part; ndncert_0_3, schema/demosec and the generator's test models are not reached by any simulated component and are NOT decided (see DESIGN.md 6.C04)",
                     "allocation bound per frame: 1 MiB + 64 x frame length (forwarder), 4x that for the engine's three passes"],
     "level_text": "Seeded search over corrupted traffic delivered to the real receive paths in a deterministic simulation; invariants per frame: no panic, bounded allocation, bounded steps, no state change on undecodable frames. Samples the byte-sequence space through structure-aware mutation; not a proof, and scoped to decoders a simulated component reaches.",
 }
